@@ -267,7 +267,16 @@ def _scenario(name, case, scratch):
                 a[:ls.size] = lay.block(G9, ls).ravel()
                 h.transpose(a, b, s, d, c if k % 2 else None)
                 ok = ok and lay.same(b[:ld.size].reshape(ld.shape), lay.block(G9, ld))
-            return ok
+            # a Grid on the same handler: ranks that are empty in the current layout (but not in every layout) take part in the
+            # min/max reductions and contribute nothing
+            g = Grid(eta9, [None] * 3, h, 'a', MPI.COMM_WORLD)
+            g.getAllData()[:] = lay.block(G9, g.getLayout('a'))
+            out = [ok]
+            for nm in ('c', 'b', 'a'):
+                g.setLayout(nm)
+                for root in (0, MPI.COMM_WORLD.Get_size() - 1):
+                    out.append((g.getMin(root), g.getMax(root), g.getMin(root, 2, 5), g.getMax(root, [0, 2], [1, 7])))
+            return out
         return fn
     if name == 'S8':
         # two independent simulations on the two halves of the world: everything must stay on the sub-communicator
